@@ -1177,7 +1177,44 @@ pub struct CGrammar {
 
 const RULE_SHIFT: usize = 2;
 
+/// Verification hook: read-only dump of the compiled grammar the Earley parser runs on.
+#[cfg(feature = "llg_verif")]
+#[derive(Debug, Clone)]
+pub struct VerifCGrammar {
+    pub start: u32,
+    pub parametric: bool,
+    /// `rhs_elements` (0 = end of a right-hand side)
+    pub rhs: Vec<u32>,
+    /// left-hand side of the rule containing position `p`: `lhs_of[p >> 2]`
+    pub lhs_of: Vec<u32>,
+    /// per symbol: (rule start pointers, is_nullable, lexeme, has sub-grammar, is_terminal)
+    pub syms: Vec<(Vec<u32>, bool, Option<u32>, bool, bool)>,
+}
+
 impl CGrammar {
+    #[cfg(feature = "llg_verif")]
+    pub fn verif_dump(&self) -> VerifCGrammar {
+        VerifCGrammar {
+            start: self.start_symbol.as_index() as u32,
+            parametric: self.parametric,
+            rhs: self.rhs_elements.iter().map(|s| s.as_index() as u32).collect(),
+            lhs_of: self.rhs_ptr_to_sym_idx.iter().map(|s| s.as_index() as u32).collect(),
+            syms: self
+                .symbols
+                .iter()
+                .map(|s| {
+                    (
+                        s.rules.iter().map(|r| r.as_index() as u32).collect(),
+                        s.is_nullable,
+                        s.lexeme.map(|l| l.as_usize() as u32),
+                        s.gen_grammar.is_some(),
+                        s.is_terminal,
+                    )
+                })
+                .collect(),
+        }
+    }
+
     pub fn parametric(&self) -> bool {
         self.parametric
     }
